@@ -595,6 +595,21 @@ def expand_facts():
             copied.append(name)
         elif any(flags):
             raise Unsupported("iter_timestamped_records keeps %s for some expanded records only" % name)
+    # a record type that itself has fields called ts / ts_description is expanded like any other: one record per
+    # datetime field, in field order, ts_description naming the field
+    for fields in ([("datetime", "ts"), ("string", "ts_description"), ("datetime", "d1"), ("varint", "n")],
+                   [("varint", "n"), ("datetime", "d1"), ("string", "ts_description"), ("datetime", "ts")],
+                   [("string", "ts"), ("datetime", "d1")]):
+        T = RecordDescriptor("probe/ts", fields)
+        kw = {}
+        for i, (t, n) in enumerate(fields):
+            kw[n] = dt.datetime(2000 + i, 1, 1, tzinfo=dt.timezone.utc) if t == "datetime" else ("own" if t == "string" else 1)
+        o = list(iter_timestamped_records(T(_generated=g, **kw)))
+        want = [(n, kw[n]) for t, n in fields if t == "datetime"]
+        got = [(getattr(x, "ts_description", None), getattr(x, "ts", None)) for x in o]
+        if got != want:
+            raise Unsupported("iter_timestamped_records on a record type with the fields %r yields (ts_description, ts) = %r, "
+                              "expected one record per datetime field: %r" % (fields, got, want))
     N = RecordDescriptor("probe/plain", [("string", "s")])
     p = N(s="y", _source="SRC", _generated=g)
     o2 = list(iter_timestamped_records(p))
